@@ -3,7 +3,7 @@ R-COUPLED-IMPORT-ORDER, R-REORG-INV, R-LOCALS-OWNER, R-ADDLOCAL, R-SWAP (name-al
 import os
 import re
 
-from vlib.facts import walk, peel, place_path, CheckError, REPO, lit_int
+from vlib.facts import walk, peel, place_path, CheckError, REPO, lit_int, uncond_before
 from vlib.paths import paths, normal_paths
 from vlib.report import RuleResult
 from rules.nopanic import snippet
@@ -712,4 +712,233 @@ def swap_flows(F):
             r.analysed.append(fn["path"])
     r.count("functions_with_same_typed_params", n_fns)
     r.count("flows", n_flows)
+    return r
+
+
+# ---------------------------------------------------------------- R-FRESH-ID
+KIND_FIELDS = {
+    "Func": {"coll": "functions", "num_local": "num_local_functions", "num_imp": "num_funcs"},
+    "Global": {"coll": "globals", "num_local": "num_local_globals", "num_imp": "num_globals"},
+    "Memory": {"coll": "memories", "num_local": "num_local_memories", "num_imp": "num_memories"},
+}
+
+
+def _len_of(e):
+    """if e is `<place>.len()` (possibly cast), return the place path"""
+    e = peel(e)
+    while isinstance(e, dict) and e.get("k") == "Cast":
+        e = peel(e["a"])
+    if isinstance(e, dict) and e.get("k") == "MethodCall" and e["method"] == "len" and not e["args"]:
+        return place_path(e["recv"])
+    return None
+
+
+def fresh_ids(F):
+    r = RuleResult("R-FRESH-ID",
+                   "an entity appended to an index-addressed collection gets the id `collection.len()` read before the push (ids are positions: `get(id)` indexes the vector). Module::add_import: in the arm for import kind K the id offered when local entities exist is `self.<K collection>.len()`, the counters consulted are K's own, and the fallback (no locals) is imports.num_K; collection adders (ModuleGlobals::add, Functions::add_local_func, Memories::add_local_mem, Module::add_data) read len()/next_id() before pushing and return that value; the import adders assert the id they are given equals next_id()")
+    # --- Module::add_import
+    fn = F.one_fn(name="add_import", self_adt="Module")
+    r.analysed.append(fn["path"])
+    ms = [m for m in walk(fn["body"]) if m.get("k") == "Match" and (m.get("scrut_ty") or "").replace("&", "").startswith("wasmparser::TypeRef")]
+    if len(ms) != 1:
+        raise CheckError("add_import: expected one match on TypeRef, found %d" % len(ms))
+    m = ms[0]
+    # destructuring let binding the tuple
+    tup_hids = None
+    for st in walk(fn["body"]):
+        if st.get("k") == "Let" and st.get("init") is m and st["pat"].get("k") == "Tuple":
+            tup_hids = [b.get("hid") if b.get("k") == "Binding" else None for b in st["pat"]["pats"]]
+    pos_then = pos_else = pos_cond = None
+    if tup_hids:
+        for n in walk(fn["body"]):
+            if n.get("k") == "If":
+                c = peel(n["cond"])
+                t = peel(n["then"])
+                e = peel(n.get("else") or {})
+                if c.get("k") == "Binary" and c.get("op") in (">", "!=") and peel(c["a"]).get("res", {}).get("hid") in tup_hids and lit_int(peel(c["b"]).get("lit")) == 0 \
+                        and t.get("res", {}).get("hid") in tup_hids and e.get("res", {}).get("hid") in tup_hids:
+                    pos_cond = tup_hids.index(peel(c["a"])["res"]["hid"])
+                    pos_then = tup_hids.index(t["res"]["hid"])
+                    pos_else = tup_hids.index(e["res"]["hid"])
+    shape = pos_then is not None
+    n_arms = 0
+    for arm in m["arms"]:
+        if arm["body"].get("ty") == "!":
+            continue
+        vs = [leaf.get("variant") for leaf in _alts(arm["pat"]) if leaf.get("variant")]
+        for v in vs:
+            kf = KIND_FIELDS.get(v)
+            if not kf:
+                continue
+            n_arms += 1
+            body = peel(arm["body"])
+            # (1) kind consistency of everything read from self in this arm
+            reads = set()
+            for x in walk(body):
+                if x.get("k") == "Field":
+                    reads.add(x["name"])
+            foreign = set()
+            for other, of in KIND_FIELDS.items():
+                if other != v:
+                    foreign |= (reads & set(of.values()))
+            ok = not foreign
+            r.ob(ok, {"arm": v, "reads": sorted(reads)})
+            if not ok:
+                r.violate("%s | %s arm reads %s" % (fn["path"], v, "+".join(sorted(foreign))), F.loc(fn, arm["body"]),
+                          "add_import's %s arm consults another kind's bookkeeping (%s): the id it offers is not the next %s index" % (v, sorted(foreign), v.lower()))
+            # (2) the len() of K's collection is the id when locals exist
+            if shape and body.get("k") == "Tup" and len(body["elems"]) == len(tup_hids):
+                lp = _len_of(body["elems"][pos_then])
+                ok = lp == "self." + kf["coll"]
+                r.ob(ok, {"arm": v, "id_when_locals_exist": lp or "not a len()"})
+                if not ok:
+                    r.violate("%s | %s id source" % (fn["path"], v), F.loc(fn, body["elems"][pos_then]),
+                              "the id offered for a new imported %s when local ones exist is not `self.%s.len()` (ids are positions in that vector): a later lookup by this id addresses a different element" % (v.lower(), kf["coll"]))
+                ce = place_path(body["elems"][pos_cond]) or ""
+                ok = ce == "self." + kf["num_local"]
+                r.ob(ok, {"arm": v, "guard_counter": ce})
+                if not ok:
+                    r.violate("%s | %s guard counter" % (fn["path"], v), F.loc(fn, body["elems"][pos_cond]), "the has-locals guard of the %s arm reads `%s`, not self.%s" % (v, ce, kf["num_local"]))
+                ee = place_path(body["elems"][pos_else]) or ""
+                ok = ee == "self.imports." + kf["num_imp"] or _len_of(body["elems"][pos_else]) == "self." + kf["coll"]
+                r.ob(ok, {"arm": v, "id_when_no_locals": ee})
+                if not ok:
+                    r.violate("%s | %s fallback id" % (fn["path"], v), F.loc(fn, body["elems"][pos_else]), "the id offered for a new imported %s when there are no locals is `%s`, not self.imports.%s" % (v.lower(), ee, kf["num_imp"]))
+            else:
+                has_len = any(_len_of(x) == "self." + kf["coll"] for x in walk(body) if isinstance(x, dict) and x.get("k") in ("MethodCall", "Cast"))
+                r.ob(has_len, {"arm": v, "shape": "unrecognised; len() of the collection present: %s" % has_len})
+                if not has_len:
+                    r.violate("%s | %s id source" % (fn["path"], v), F.loc(fn, body), "the %s arm of add_import never reads self.%s.len()" % (v, kf["coll"]))
+    r.count("add_import_arms", n_arms)
+    # --- collection adders: len()/next_id() before push, and that value is returned / stored as the element id
+    adders = [("add", "ModuleGlobals", "globals"), ("add_local_func", "Functions", "functions"), ("add_local_mem", "Memories", "memories"), ("add_data", "Module", "data")]
+    for name, adt, coll in adders:
+        fn = F.one_fn(name=name, self_adt=adt)
+        r.analysed.append(fn["path"])
+        lens, pushes = [], []
+        for x in walk(fn["body"]):
+            if x.get("k") != "MethodCall":
+                continue
+            callee = x.get("inst") or x.get("callee") or ""
+            if x["method"] == "len" and (place_path(x["recv"]) or "") == "self." + coll:
+                lens.append(x)
+            elif x["method"] == "next_id" and callee in F.by_path:
+                t = F.by_path[callee][0]
+                if any(y.get("k") == "MethodCall" and y["method"] == "len" and (place_path(y["recv"]) or "") == "self." + coll for y in walk(t["body"])):
+                    lens.append(x)
+            elif x["method"] == "push":
+                pp = place_path(x["recv"]) or ""
+                if pp == "self." + coll:
+                    pushes.append(x)
+                elif pp == "self" and callee in F.by_path:
+                    t = F.by_path[callee][0]
+                    if any(y.get("k") == "MethodCall" and y["method"] == "push" and (place_path(y["recv"]) or "") == "self." + coll for y in walk(t["body"])):
+                        pushes.append(x)
+        ok = len(lens) >= 1 and len(pushes) == 1 and all(uncond_before(fn["body"], l, pushes[0])[0] for l in lens)
+        r.ob(ok, {"adder": fn["path"], "len_reads": len(lens), "pushes": len(pushes)})
+        if not ok:
+            r.violate("%s | len-before-push" % fn["path"], F.loc(fn), "%s::%s does not read self.%s.len() (or next_id()) unconditionally before its single push: the id it hands out is not the position the element gets" % (adt, name, coll))
+            continue
+        # the returned value derives from the len read
+        id_hids = set()
+        for st in walk(fn["body"]):
+            if st.get("k") == "Let" and st["pat"].get("k") == "Binding" and any(y is lens[0] for y in walk(st.get("init") or {})):
+                id_hids.add(st["pat"]["hid"])
+        tail = fn["body"].get("expr") if fn["body"].get("k") == "Block" else None
+        ret_h = {y["res"]["hid"] for y in walk(tail or {}) if y.get("k") == "Path" and y.get("res", {}).get("r") == "local"}
+        ok = bool(id_hids & ret_h) and not any(y.get("k") == "Binary" for y in walk(tail or {}))
+        r.ob(ok, {"adder": fn["path"], "returns_len_before_push": ok})
+        if not ok:
+            r.violate("%s | returned id" % fn["path"], F.loc(fn), "%s::%s does not return the length it read before pushing" % (adt, name))
+    for name, adt in (("add_import_func", "Functions"), ("add_import_mem", "Memories")):
+        fn = F.one_fn(name=name, self_adt=adt)
+        r.analysed.append(fn["path"])
+        ok = False
+        for x in walk(fn["body"]):
+            if x.get("k") == "Match" and "assert_eq" in (x.get("exp") or []) or (x.get("k") in ("Match", "If") and "assert_eq" in (x.get("exp") or [])):
+                if any(y.get("k") == "MethodCall" and y["method"] == "next_id" for y in walk(x)):
+                    ok = True
+        r.ob(ok, {"import adder": fn["path"], "asserts id == next_id()": ok})
+        if not ok:
+            r.violate("%s | id assertion" % fn["path"], F.loc(fn), "%s::%s no longer asserts that the id chosen by Module::add_import equals next_id(): a wrong id would be stored silently" % (adt, name))
+    return r
+
+
+def _alts(p):
+    from vlib.facts import pat_alternatives
+    return pat_alternatives(p)
+
+
+# ---------------------------------------------------------------- R-IMPORT-ORDINAL
+def import_ordinal(F):
+    """Engler-style rule from this repository's own history (three repaired defects had this shape): the n-th *function*
+    import is not the import at *position* n once a non-function import precedes it.  In a loop over the import list that
+    filters by kind, the enumerate() position may be compared only with an ImportsID; an ordinal within a kind must be
+    counted separately."""
+    r = RuleResult("R-IMPORT-ORDINAL",
+                   "in every loop over the import list that filters by import kind (is_function/is_global/is_memory or a TypeRef match), the enumerate() position is never compared with a per-kind index (function/global/memory index): positions among all imports and ordinals among one kind differ as soon as another kind of import precedes")
+    n_loops = 0
+    n_filtered = 0
+    for fn in F.fns:
+        if fn.get("body") is None:
+            continue
+        for m in walk(fn["body"]):
+            if not (m.get("k") == "Match" and m.get("src") == "ForLoopDesugar"):
+                continue
+            sc = m["scrut"]
+            over_imports = False
+            enum = False
+            for x in walk(sc):
+                if x.get("k") == "MethodCall" and x["method"] == "enumerate":
+                    enum = True
+                if x.get("k") == "Field" and x["name"] == "imports":
+                    over_imports = True
+                t = x.get("ty") or ""
+                if x.get("k") == "Path" and ("ModuleImports" in t or "Vec<ir::module::module_imports::Import" in t):
+                    over_imports = True
+                if x.get("k") == "MethodCall" and "ModuleImports" in (x.get("recv_ty") or ""):
+                    over_imports = True
+            if not over_imports:
+                continue
+            n_loops += 1
+            if fn["path"] not in r.analysed:
+                r.analysed.append(fn["path"])
+            if not enum:
+                r.ob(True, {"fn": fn["path"], "loop": "over imports, no position used"})
+                continue
+            # pattern (idx, item)
+            pat = body = None
+            for lp in walk(m["arms"][0]["body"]):
+                if lp.get("k") == "Match" and lp is not m:
+                    for arm in lp["arms"]:
+                        if arm["pat"].get("variant") == "Some":
+                            inner = arm["pat"]["pats"][0] if arm["pat"].get("pats") else (arm["pat"]["fields"][0][1] if arm["pat"].get("fields") else None)
+                            pat, body = inner, arm["body"]
+                    break
+            if not pat or pat.get("k") != "Tuple" or not pat["pats"] or pat["pats"][0].get("k") != "Binding":
+                r.ob(True, {"fn": fn["path"], "loop": "enumerate pattern not (idx, item)"})
+                continue
+            idx_h = pat["pats"][0]["hid"]
+            filt = any((x.get("k") == "MethodCall" and x["method"] in ("is_function", "is_global", "is_memory", "is_table", "is_tag"))
+                       or (x.get("k") in ("TupleStruct", "Struct", "Path") and (x.get("adt") or x.get("res", {}).get("adt") or "") == "wasmparser::TypeRef" and (x.get("variant") or x.get("res", {}).get("variant")))
+                       for x in walk(body))
+            if not filt:
+                r.ob(True, {"fn": fn["path"], "loop": "no kind filter: position is an ImportsID"})
+                continue
+            n_filtered += 1
+            bad = None
+            for c in walk(body):
+                if c.get("k") == "Binary" and c.get("op") in ("==", "!=", "<", ">", "<=", ">="):
+                    for mine, other in ((c["a"], c["b"]), (c["b"], c["a"])):
+                        if any(x.get("k") == "Path" and x.get("res", {}).get("hid") == idx_h for x in walk(mine)):
+                            is_imports_id = any("ImportsID" in (x.get("ty") or "") for x in walk(other))
+                            if not is_imports_id:
+                                bad = c
+            ok = bad is None
+            r.ob(ok, {"fn": fn["path"], "loop": "kind-filtered enumerate over imports", "position_compared_with_non_ImportsID": not ok})
+            if not ok:
+                r.violate("%s | position-vs-ordinal" % fn["path"], F.loc(fn, bad),
+                          "a loop over all imports that filters by kind compares the enumerate() position with a per-kind index: once a non-matching import precedes, the wrong import (or none) is selected")
+    r.count("import_loops", n_loops)
+    r.count("kind_filtered_enumerations", n_filtered)
     return r
